@@ -30,16 +30,16 @@ type step struct {
 	key   string
 	vals  []string
 	code  int
-	chunk string
+	chunk chunk
 	d     time.Duration
 }
 
 func (s step) String() string {
 	switch s.kind {
 	case sWrite:
-		return "write(" + s.chunk + ")"
+		return "write(" + s.chunk.String() + ")"
 	case sSetHdr:
-		return fmt.Sprintf("sethdr(%s=%v)", s.key, s.vals)
+		return fmt.Sprintf("sethdr(%s=%s)", s.key, abbrevVals(s.vals))
 	case sSleep:
 		return "sleep(" + s.d.String() + ")"
 	case sWriteHeader:
@@ -54,7 +54,7 @@ type act struct {
 	key   string
 	vals  []string
 	code  int
-	chunk string
+	chunk chunk
 	err   error
 }
 
@@ -81,7 +81,120 @@ type work struct {
 
 const hdrPrefix = "X-Work-"
 
+// workMark is contained in every non-empty piece of at least patRecord+1 bytes that a work
+// writes into a body: literal chunks start with it, the pattern repeats it every patRecord bytes.
+const workMark = "<w"
+
 func chunkMarker(id, i int) string { return fmt.Sprintf("<w%d.c%d>", id, i) }
+
+// Large bodies are slices of one read-only array that is generated once per process: a
+// sequence of 16-byte records "<wRRRRRR:HHHHH>|" (R: record number, H: a hash of it), so the
+// content depends on the position, every window of 17 bytes contains workMark, and no big
+// strings are ever built.  A work takes its pattern chunks from consecutive positions that
+// start at an offset of its own (patBase), so chunks that are swapped, repeated, cut or that
+// come from another call change the checksum of the body.
+const (
+	patRecord = 16
+	patStride = 257 * patRecord
+	maxBody   = 8 << 20 // pattern bytes per script
+	maxChunks = 512     // Write calls per script
+)
+
+var pattern = makePattern(maxBody + 8*patStride)
+
+func makePattern(n int) []byte {
+	const hexd = "0123456789abcdef"
+	b := make([]byte, 0, n+patRecord)
+	for r := uint32(0); len(b) < n; r++ {
+		h := (r * 2654435761) >> 12
+		b = append(b, '<', 'w',
+			hexd[r>>20&15], hexd[r>>16&15], hexd[r>>12&15], hexd[r>>8&15], hexd[r>>4&15], hexd[r&15], ':',
+			hexd[h>>16&15], hexd[h>>12&15], hexd[h>>8&15], hexd[h>>4&15], hexd[h&15], '>', '|')
+	}
+	return b[:n:n]
+}
+
+func patBase(id int) int { return (id % 8) * patStride }
+
+// chunk is the payload of one Write: a short literal or the slice pattern[off:off+n].
+type chunk struct {
+	lit    string
+	pat    bool
+	off, n int
+}
+
+func (c chunk) size() int {
+	if c.pat {
+		return c.n
+	}
+	return len(c.lit)
+}
+
+// bytes is what the work hands to Write; pattern chunks alias the shared array (with the
+// capacity cut, so that an append of the callee cannot reach into it).
+func (c chunk) bytes() []byte {
+	if c.pat {
+		return pattern[c.off : c.off+c.n : c.off+c.n]
+	}
+	return []byte(c.lit)
+}
+
+func (c chunk) String() string {
+	if c.pat {
+		return fmt.Sprintf("pattern[%d:+%d]", c.off, c.n)
+	}
+	return c.lit
+}
+
+func abbrev(s string) string {
+	if len(s) <= 64 {
+		return s
+	}
+	return fmt.Sprintf("%s...(%d bytes)", s[:24], len(s))
+}
+
+func abbrevVals(vals []string) string {
+	parts := make([]string, len(vals))
+	for i, v := range vals {
+		parts[i] = abbrev(v)
+	}
+	return "[" + strings.Join(parts, " ") + "]"
+}
+
+// bodyPlan is the swarm-style choice of how one REST script writes its body.  The zero value
+// is the plain one: a few short literal chunks, one header value per step.
+type bodyPlan struct {
+	kmax      int  // pattern chunks are at most 2^kmax+1 bytes; 0: no pattern chunks at all
+	zero      bool // zero-length Write calls
+	pow2      bool // chunk sizes 2^k-1, 2^k, 2^k+1 for k in [10, kmax]
+	uniform   bool // chunk sizes anywhere in [1, 2^kmax]
+	burst     int  // a write step is up to this many consecutive Write calls
+	hdrBurst  int  // a header step sets up to this many keys
+	longHdr   bool // header values of up to 8 KB
+	moreSteps int
+}
+
+var kmaxTable = []int{12, 16, 20, 22}
+var burstTable = []int{1, 4, 16, 400}
+
+func genBodyPlan(t *simrt.Tape) bodyPlan {
+	var p bodyPlan
+	v := t.Intn(planDen)
+	if v < planDen-len(kmaxTable) {
+		return p
+	}
+	p.kmax = kmaxTable[v-(planDen-len(kmaxTable))]
+	p.zero, p.pow2, p.uniform = t.Bool(), t.Bool(), t.Bool()
+	p.burst = burstTable[t.Intn(len(burstTable))]
+	if t.Bool() {
+		p.hdrBurst, p.longHdr = t.Range(1, 64), t.Bool()
+	}
+	p.moreSteps = t.Range(0, 6)
+	return p
+}
+
+// planDen: len(kmaxTable) of planDen REST scripts get a body plan other than the plain one.
+const planDen = 16
 
 type scriptOpts struct {
 	rest      bool // may touch a ResponseWriter
@@ -95,10 +208,69 @@ type scriptOpts struct {
 var statusCodes = []int{201, 200, 204, 400, 404, 500, 503, 499, 302}
 
 func genScript(t *simrt.Tape, id int, o scriptOpts) []step {
-	n := t.Range(0, o.maxSteps)
+	var plan bodyPlan
+	if o.rest {
+		plan = genBodyPlan(t)
+	}
+	n := t.Range(0, o.maxSteps+plan.moreSteps)
 	var sc []step
 	var cum time.Duration
-	nchunk, nhdr := 0, 0
+	nchunk, nhdr, patUsed := 0, 0, 0
+	var cls []int // the size classes of the plan besides the short literal
+	if plan.zero {
+		cls = append(cls, 1)
+	}
+	if plan.pow2 {
+		cls = append(cls, 2)
+	}
+	if plan.uniform {
+		cls = append(cls, 3)
+	}
+	// one Write call of the script
+	write := func() {
+		if nchunk >= maxChunks {
+			return
+		}
+		size := -1 // literal
+		if len(cls) > 0 {
+			if v := t.Intn(1 + len(cls)); v > 0 {
+				switch cls[v-1] {
+				case 1:
+					size = 0
+				case 2:
+					size = 1<<t.Range(10, plan.kmax) + [...]int{0, -1, 1}[t.Intn(3)]
+				default:
+					size = t.Range(1, 1<<plan.kmax)
+				}
+			}
+		}
+		if size > maxBody-patUsed {
+			size = -1
+		}
+		if size >= 0 {
+			sc = append(sc, step{kind: sWrite, chunk: chunk{pat: true, off: patBase(id) + patUsed, n: size}})
+			patUsed += size
+		} else {
+			c := chunkMarker(id, nchunk)
+			if t.Chance(1, 4) {
+				c += strings.Repeat("x", t.Range(1, 40))
+			}
+			sc = append(sc, step{kind: sWrite, chunk: chunk{lit: c}})
+		}
+		nchunk++
+	}
+	setHdr := func() {
+		vals := []string{fmt.Sprintf("v%d-%d", id, nhdr)}
+		if t.Chance(1, 4) {
+			vals = append(vals, fmt.Sprintf("v%d-%d-b", id, nhdr))
+		}
+		if plan.longHdr && t.Chance(1, 4) {
+			off := patBase(id) + t.Range(0, 1<<12)
+			vals[0] += string(pattern[off : off+t.Range(1, 8<<10)])
+		}
+		sc = append(sc, step{kind: sSetHdr, key: fmt.Sprintf("%sK%d-%d", hdrPrefix, id, nhdr), vals: vals})
+		nhdr++
+	}
 	E := o.effective
 	sleep := func() step {
 		var d time.Duration
@@ -169,19 +341,19 @@ func genScript(t *simrt.Tape, id int, o scriptOpts) []step {
 		}
 		switch k {
 		case sWrite:
-			c := chunkMarker(id, nchunk)
-			if t.Chance(1, 4) {
-				c += strings.Repeat("x", t.Range(1, 40))
+			write()
+			if plan.burst > 1 {
+				for m := t.Range(0, plan.burst-1); m > 0; m-- {
+					write()
+				}
 			}
-			nchunk++
-			sc = append(sc, step{kind: sWrite, chunk: c})
 		case sSetHdr:
-			vals := []string{fmt.Sprintf("v%d-%d", id, nhdr)}
-			if t.Chance(1, 4) {
-				vals = append(vals, fmt.Sprintf("v%d-%d-b", id, nhdr))
+			setHdr()
+			if plan.hdrBurst > 1 && nhdr < 256 {
+				for m := t.Range(0, plan.hdrBurst-1); m > 0; m-- {
+					setHdr()
+				}
 			}
-			sc = append(sc, step{kind: sSetHdr, key: fmt.Sprintf("%sK%d-%d", hdrPrefix, id, nhdr), vals: vals})
-			nhdr++
 		case sSleep:
 			sc = append(sc, sleep())
 		case sWriteHeader:
@@ -203,7 +375,21 @@ func genScript(t *simrt.Tape, id int, o scriptOpts) []step {
 
 func scriptString(sc []step) string {
 	var parts []string
-	for _, s := range sc {
+	for i, s := range sc {
+		if i == 24 && len(sc) > 32 {
+			writes, bytes := 0, 0
+			for _, x := range sc[i:] {
+				if x.kind == sWrite {
+					writes++
+					bytes += x.chunk.size()
+				}
+			}
+			parts = append(parts, fmt.Sprintf("...+%d steps (%d writes of %d bytes in all) ...", len(sc)-i-4, writes, bytes))
+			for _, x := range sc[len(sc)-4:] {
+				parts = append(parts, x.String())
+			}
+			break
+		}
 		parts = append(parts, s.String())
 	}
 	return strings.Join(parts, " ")
@@ -222,20 +408,20 @@ func (k *work) run(ctx context.Context, rw http.ResponseWriter) {
 	for _, s := range k.script {
 		switch s.kind {
 		case sWrite:
-			_, err := rw.Write([]byte(s.chunk))
+			_, err := rw.Write(s.chunk.bytes())
 			k.acts = append(k.acts, act{kind: sWrite, chunk: s.chunk, err: err})
 			if err != nil {
 				k.wErrs++
 				r.Probe("work-write-rejected")
 			}
 			if r.Tracing() {
-				r.Logf("#%d work %d Write(%q) -> %v", w.tick(), k.id, s.chunk, err)
+				r.Logf("#%d work %d Write(%s) -> %v", w.tick(), k.id, s.chunk, err)
 			}
 		case sSetHdr:
 			rw.Header()[s.key] = append([]string(nil), s.vals...)
 			k.acts = append(k.acts, act{kind: sSetHdr, key: s.key, vals: s.vals})
 			if r.Tracing() {
-				r.Logf("#%d work %d Header[%s]=%v", w.tick(), k.id, s.key, s.vals)
+				r.Logf("#%d work %d Header[%s]=%s", w.tick(), k.id, s.key, abbrevVals(s.vals))
 			}
 		case sWriteHeader:
 			rw.WriteHeader(s.code)
